@@ -412,6 +412,8 @@ def run(ctx):
     ctx.units("long-lookahead-runs", unit_long_runs, [{"lengths": list(range(0, 40)) + [48, 64, 100, 128, 129, 256, 257] + ([] if q else [500, 1023, 1024, 1025, 2000, 4096, 4097]),
                                                        "shard": i, "nshards": 16} for i in range(16)], procs=16)
     ctx.units("random-walks", unit_walks, [{"n": 600 if q else 6000, "seed": ctx.seed, "shard": i} for i in range(8 if q else 16)], procs=16)
+    from . import magnitude
+    magnitude.run_big(ctx, "c02_text", "check_text", "text")
     try:
         from . import c02_text
         c02_text.run_text(ctx)
